@@ -8,6 +8,9 @@ Campaigns
   seq3  every sequence of three terms from a pool of 51 small terms (atoms, quantified atoms of every kind,
         optional / repeated / alternating groups, \\1, $, \\b, the four lookarounds) x subjects up to length 4:
         the interactions between neighbouring terms; VERIF_SEED-rotated 1/20 slice (thorough: all ~127 000).
+  life  capture-lifetime families (gens/patterns.enumerate_lifetime, ~1600 patterns): a backreference inside
+        its own group reached again after backtracking, a capture of an earlier iteration read by a later
+        one, captures inside look-arounds of a repeated body x subjects up to length 4; quick: half.
   rand  random ASTs of depth <= 3 (half through the Hypothesis strategy, half through the seeded generator)
         with subjects of length <= 12 over "abcABC019_ \\n" derived from the pattern (random walk + 0-2 edits).
   js    a 5 % sample of all cases again through script-level `new RegExp(p, f).exec(s)` and `/p/f.exec(s)`.
@@ -279,8 +282,8 @@ def exh_task(task):
     st = _Stats()
     for i in range(lo, hi):
         ast, ptext = _PATTERNS[i]
-        if sub == "seq3":
-            sets = [("", _SUBJ_ABC)]
+        if sub in ("seq3", "life"):
+            sets = [("", _SUBJ_ABC)] if sub == "seq3" else [("", _SUBJ_ABC), ("i", _SUBJ_ABC[::3])]
         else:
             sets = [(f, _SUBJ_ABC) for f in FLAGS_ABC] + [(f, P.SPECIAL_SUBJECTS) for f in FLAGS_SPECIAL]
         fid = guarded(ast, "")
@@ -537,7 +540,7 @@ def _merge(chk, res, sub, js_cases):
             if "from" in mm:
                 case["from"] = mm["from"]
             sig = signature(sub.split("-")[0], mm["expected"], mm["actual"], ast)
-            if sub in ("exh3", "exh4", "seq3") and mm["subject"] is not None:
+            if sub in ("exh3", "exh4", "seq3", "life") and mm["subject"] is not None:
                 chk.cell(cell_key(mm["pattern"], mm["flags"], mm["subject"]), mm["expected"], mm["actual"], case,
                          sub=sub, signature=sig)
             else:
@@ -630,6 +633,18 @@ def main(chk):
     chk.extra["patterns"]["seq3_run"] = ns3
     chk.extra["patterns"]["seq3_total"] = len(all_s3)
     del all_s3
+    if _too_slow(chk):
+        return
+
+    # ---- capture-lifetime families (quick: seed-rotated half)
+    all_life = P.enumerate_lifetime()
+    sel = all_life if thorough else [a for i, a in enumerate(all_life) if i % 2 == chk.seed % 2]
+    _PATTERNS = [(a, P.to_source(a)) for a in sel]
+    nl = len(_PATTERNS)
+    tasks = [(lo, min(lo + 60, nl), "life") for lo in range(0, nl, 60)]
+    _merge(chk, pool.run(exh_task, tasks, timeout=900), "life", js_cases)
+    chk.extra["patterns"]["lifetime_run"] = nl
+    chk.extra["patterns"]["lifetime_total"] = len(all_life)
     if _too_slow(chk):
         return
 
